@@ -269,8 +269,7 @@ static int
 be_filter_enable(struct bufferevent *bev, short event)
 {
 	struct bufferevent_filtered *bevf = upcast(bev);
-	/* no write timeout while there is nothing to write */
-	if ((event & EV_WRITE) && evbuffer_get_length(bev->output))
+	if (event & EV_WRITE)
 		BEV_RESET_GENERIC_WRITE_TIMEOUT(bev);
 
 	if (event & EV_READ) {
@@ -407,13 +406,8 @@ be_filter_process_output(struct bufferevent_filtered *bevf,
 	evbuffer_cb_set_flags(bufev->output,bevf->outbuf_cb,
 	    EVBUFFER_CB_ENABLED);
 
-	if (*processed_out) {
-		/* restart the write timeout only if output is still pending */
-		if (evbuffer_get_length(bufev->output))
-			BEV_RESET_GENERIC_WRITE_TIMEOUT(bufev);
-		else
-			BEV_DEL_GENERIC_WRITE_TIMEOUT(bufev);
-	}
+	if (*processed_out)
+		BEV_RESET_GENERIC_WRITE_TIMEOUT(bufev);
 
 	return res;
 }
